@@ -59,3 +59,48 @@ for pid, profs in {"C01": ["acl"], "C02": ["seq"], "C06": ["audit", "acl"], "C09
         assumptions=["sequential calls (concurrency is C14's)", "version numbers < 2^32 - 1"],
         rule=DB_RULE,
     )
+
+
+def c03_shards(tier, seed, search=False):
+    out = db_shards(["persist"])(tier, seed, search)
+    out.append(Shard("golden", ["-profile", FIXTURES], driver="golden"))
+    return out
+
+
+def c05_shards(tier, seed, search=False):
+    k, n, steps = (4, 3, 25) if tier == "quick" else (16, 6, 40)
+    return [Shard("crypto", ["-seed", str(s), "-n", str(n), "-steps", str(steps)] + (["-profile", "thorough"] if tier == "thorough" else []))
+            for s in seeds(seed, k)]
+
+
+import os as _os
+FIXTURES = _os.path.join(_os.path.dirname(_os.path.dirname(_os.path.abspath(__file__))), "fixtures")
+PROPS["C03"]["shards"] = c03_shards
+PROPS["C03"]["rule"] = DB_RULE + "; after every step the file is copied, reopened with db.Open, compared, probed for the next version; plus 3 golden schema-v1 files"
+PROPS["C05"] = dict(
+    shards=c05_shards,
+    trusted=BASE_TRUST + ["ideal-AEAD hypothesis: AES256-GCM / XChaCha20-Poly1305 (tink) behave like the symbolic AEAD of Model/Crypto.lean; cryptographic strength is assumed"],
+    assumptions=["the adversary cannot forge a ciphertext under a key it does not hold", "wholesale replacement by an earlier snapshot of the same database is not claimed"],
+    rule=("histories with high-entropy marker names/values against a real db.DB + audit file with a real AES256-GCM key-encryption key; after every step every file "
+          "under the state directory is scanned for every marker raw/hex/base64(std,url; 3 alignments)/JSON-escaped, modes are read and key-encryption-key uses counted; "
+          "on the final file every bit of ~300 byte positions (thorough: every bit) is flipped, it is truncated at ~900 positions, opened with a foreign key, and all 12 "
+          "splices of its fields with an independent database are opened; a case is (kind, outcome)"),
+)
+
+
+def fs_shards(ops):
+    return [Shard("fs", ["-profile", op], driver="fs", label="fs/" + op) for op in ops]
+
+
+def c04_shards(tier, seed, search=False):
+    return db_shards(["fault"])(tier, seed, search) + fs_shards(["create", "putnew", "putver", "activate", "delver", "delete"])
+
+
+PROPS["C04"]["shards"] = c04_shards
+PROPS["C04"]["trusted"] = PROPS["C04"]["trusted"] + [
+    "the kernel: rename(2) replaces the target atomically, completed system calls of a killed process persist; power-loss durability is not exhibited (only the fsync-before-rename ordering is proved and traced)",
+    "strace (ptrace) fault and kill injection; tailscale.com/atomicfile is not translated: its system-call sequence is traced and compared with Model.Fs.atomicWrite on every run"]
+PROPS["C04"]["rule"] = (DB_RULE + "; in-process save failures (state directory moved away) at random steps; plus, for each of create/new secret/new version/activate/"
+                        "delete-version/delete: a child process performing the real operation under strace, its window of file-system calls compared with the model, then every "
+                        "call of the window failed with EIO (and ENOSPC where plausible) and the process killed before each call and after the last; a case is (operation, call, errno|kill)")
+PROPS["C04"]["exhaustive"] = True
